@@ -214,14 +214,14 @@ def run(ctx):
     # 1. corpus: witnesses of the findings, many seeds
     cases = []
     for fid, src in CORPUS:
-        for sd in (CORPUS_SEEDS if quick else list(range(1, 120))):
+        for sd in (CORPUS_SEEDS if quick else list(range(1, 61))):
             cases.append({"main": src, "seed": sd, "passes": 1 + sd % 3, "label": f"corpus[{fid}]", "tie": sd <= 6})
     nv, _ = judge(ctx, cases, "C20 corpus", model_ok)
     # 2. shipped programs x seeds x 1..4 passes
     shipped = shipped_programs()
     ctx.coverage["shipped_programs"] = len(shipped)
     ctx.coverage["shipped_excluded"] = SHIPPED_EXCLUDED
-    seeds = [ctx.rng.randrange(1, 1 << 40) for _ in range(5 if quick else 60)]
+    seeds = [ctx.rng.randrange(1, 1 << 40) for _ in range(5 if quick else 40)]
     cases = [dict(c, seed=sd, passes=1 + k % 4, tie=k == 0) for c in shipped for k, sd in enumerate(seeds)
              if c["label"] not in HEAVY or (k == 0 or not quick)]
     for c in cases:
@@ -230,8 +230,8 @@ def run(ctx):
             c["timeout"] = 30000
     nv2, _ = judge(ctx, cases, "C20 shipped", model_ok)
     # 3. generated programs in the class x seeds x 1..4 passes
-    nprog = 150 if quick else 1500
-    per = 4 if quick else 12
+    nprog = 150 if quick else 900
+    per = 4 if quick else 10
     feats = {}
     cases = []
     for _ in range(nprog):
@@ -251,7 +251,7 @@ def run(ctx):
     _, nd = judge(ctx, out_cases, "C20 outside-class", False, judged=False)
     ctx.coverage["outside_class_variants_that_differ"] = nd
 
-    ctx.coverage["rule"] = ("(program, seed, passes) triples: witnesses of every fuzzer finding x 20 seeds (thorough: 119), the shipped examples/tests x "
+    ctx.coverage["rule"] = ("(program, seed, passes) triples: witnesses of every fuzzer finding x 20 seeds (thorough: 60), the shipped examples/tests x "
                             "random seeds x 1..4 passes, typed random programs inside the class of the statement x random seeds x 1..4 "
                             "passes; every intermediate variant is re-analysed and run on both backends; non-trivial = distinct triple "
                             "whose original is accepted")
